@@ -174,3 +174,90 @@ Proof.
   intros k v I. specialize (F (k, v) I). cbn in F. destruct v; try discriminate.
   rewrite (lookup_in_nodup S k _ N I). apply merge_flat_self. exact F.
 Qed.
+
+(* ------------------------------------------------------------------ Part B: the input section *)
+
+Fixpoint strs_eqb (a b : list string) : bool :=
+  match a, b with
+  | [], [] => true
+  | x :: a', y :: b' => String.eqb x y && strs_eqb a' b'
+  | _, _ => false
+  end.
+
+Lemma strs_eqb_eq a : forall b, strs_eqb a b = true -> a = b.
+Proof.
+  induction a as [|x a IH]; intros [|y b]; cbn; try discriminate; [reflexivity|].
+  intro H. apply andb_prop in H as [H1 H2]. apply String.eqb_eq in H1. rewrite (IH b H2), H1. reflexivity.
+Qed.
+
+Definition extends (a s : dict) : bool := strs_eqb (keys a) (firstn (List.length a) (keys s)).
+
+(* {"input": {"left": {scalars}, "right": {scalars}}}, the two sections beginning with the keys
+   of the defaults in the defaults' order *)
+Definition input_shape (def c : dict) : bool :=
+  match def, c with
+  | [(i1, JDict [(l1, JDict dl); (r1, JDict dr)])], [(i2, JDict [(l2, JDict l); (r2, JDict r)])] =>
+    String.eqb i1 "input" && String.eqb i2 "input" && String.eqb l1 "left" && String.eqb l2 "left"
+    && String.eqb r1 "right" && String.eqb r2 "right"
+    && flat l && flat r && extends dl l && extends dr r
+  | _, _ => false
+  end.
+
+Lemma update_conf_input_shape def c : input_shape def c = true -> update_conf def c = Some c.
+Proof.
+  unfold input_shape.
+  destruct def as [|[i1 [| | | | | | | |[|[l1 [| | | | | | | |dl]] [|[r1 [| | | | | | | |dr]] [|]]]]] [|]]; try discriminate.
+  destruct c as [|[i2 [| | | | | | | |[|[l2 [| | | | | | | |l]] [|[r2 [| | | | | | | |r]] [|]]]]] [|]]; try discriminate.
+  rewrite !andb_true_iff. intros [[[[[[[[[E1 E2] E3] E4] E5] E6] F1] F2] X1] X2].
+  apply String.eqb_eq in E1, E2, E3, E4, E5, E6. subst.
+  apply strs_eqb_eq in X1, X2.
+  unfold update_conf. rewrite merge_val_dict.
+  assert (E : merge_items [("input", JDict [("left", JDict l); ("right", JDict r)])]
+                          [("input", JDict [("left", JDict dl); ("right", JDict dr)])]
+              = Some [("input", JDict [("left", JDict l); ("right", JDict r)])]).
+  { Opaque merge_val. cbn [merge_items lookup]. rewrite String.eqb_refl. rewrite merge_val_dict.
+    cbn [merge_items lookup]. rewrite String.eqb_refl.
+    rewrite merge_val_dict. rewrite (merge_flat_over dl l F1 X1).
+    cbn [set_key]. rewrite String.eqb_refl. cbn [lookup].
+    change ("right" =? "left") with false. cbv iota. rewrite String.eqb_refl.
+    rewrite merge_val_dict. rewrite (merge_flat_over dr r F2 X2).
+    cbn [set_key]. change ("right" =? "left") with false. cbv iota. rewrite String.eqb_refl.
+    cbn [set_key]. rewrite String.eqb_refl. reflexivity. Transparent merge_val. }
+  rewrite E. reflexivity.
+Qed.
+
+Section Main.
+  Variable D : input_defs.
+  Variable orc : string -> jv -> option bool.
+  Variable grid_ok : jv -> jv -> bool.
+  Variable images_ok : dict -> bool.
+  Variable bands_of : jv -> list jv.
+  Variable classes : list class_def.
+  Variable interp : list string.
+
+  Notation input_check := (input_check D orc grid_ok images_ok).
+
+  (* check_input_section returns update_conf(defaults, user) or raises *)
+  Lemma input_check_out u c : input_check u = Some c -> update_conf (i_default D) u = Some c.
+  Proof.
+    unfold SavedCfg.input_check. destruct (update_conf (i_default D) u) as [cfg|]; [|discriminate].
+    destruct (subdict "input" cfg) as [inp|]; [|discriminate].
+    destruct (subdict "left" inp) as [lft|]; [|discriminate].
+    destruct (subdict "right" inp) as [rgt|]; [|discriminate].
+    destruct (lookup "disp" lft) as [ld|]; [|discriminate].
+    destruct (lookup "disp" rgt) as [rd|]; [|discriminate].
+    destruct (lookup "img" lft) as [li|]; [|discriminate].
+    destruct (lookup "img" rgt) as [ri|]; [|discriminate].
+    destruct (if is_list ld then _ else _) as [bl br].
+    destruct (_ && _); [|discriminate]. intro H. exact H.
+  Qed.
+
+  (* INPUT SECTION REPLAYS: an accepted input section whose completion update_conf leaves
+     unchanged is accepted again and returned unchanged *)
+  Lemma input_check_fix u c :
+    input_check u = Some c -> update_conf (i_default D) c = Some c -> input_check c = Some c.
+  Proof.
+    intros H F. pose proof (input_check_out u c H) as U.
+    unfold SavedCfg.input_check in *. rewrite U in H. rewrite F. exact H.
+  Qed.
+End Main.
